@@ -583,12 +583,19 @@ def rewrite_addr(body):
 
 
 _gen_done = {}
+import threading
+_gen_lock = threading.RLock()
 
 
 def gen_dir(prog):
     """directory with the generated files of a program; regenerated once per process
     (atomically: other processes may be compiling from the same directory)"""
     d = os.path.join(BUILD, "gen-%s-%s" % (prog.key, prog.sha))
+    with _gen_lock:
+        return _gen_dir_locked(prog, d)
+
+
+def _gen_dir_locked(prog, d):
     if d not in _gen_done:
         os.makedirs(d, exist_ok=True)
         tmp = tempfile.mkdtemp(prefix="gentmp-", dir=BUILD)
@@ -756,9 +763,9 @@ Effect = namedtuple("Effect", "op name delta need peak rdelta rneed rpeak co pro
 EFFECT_VERSION = "effects-v3 unwind34 default-checks"
 
 
-def _harness_hash():
+def _harness_hash(prog=None):
     h = hashlib.sha1()
-    for f in ("C05_native.c", "C05_pre.h", "C05_env.h", "C05_env_hs.h", "common.h", "strmodel.c"):
+    for f in ("C05_native.c", "C05_pre.h", "C05_env.h", "common.h", "strmodel.c") + (("C05_env_hs.h",) if (prog is None or prog.eng_based) else ()):
         pth = os.path.join(HARN, f)
         if os.path.exists(pth):
             h.update(open(pth, "rb").read())
@@ -902,7 +909,7 @@ def native_effects(prog, jobs=None, force=False):
     pre-state (delta constant; need/peak = maxima over all paths); cached by content"""
     jobs = jobs or int(os.environ.get("T0TOOL_JOBS", "4"))
     src = open(extract_natives(prog)).read()
-    hk = hashlib.sha1((src + _harness_hash() + hh(prog.repo)).encode()).hexdigest()[:16]
+    hk = hashlib.sha1((src + _harness_hash(prog) + hh(prog.repo)).encode()).hexdigest()[:16]
     cache = os.path.join(BUILD, "effects-%s-%s.json" % (prog.key, hk))
     if os.path.exists(cache) and not force:
         d = json.load(open(cache))
@@ -960,7 +967,7 @@ def dup_spec_ok(prog):
     if n is None:
         return False
     src = open(extract_natives(prog)).read()
-    hk = hashlib.sha1((src + _harness_hash() + hh(prog.repo) + "dup").encode()).hexdigest()[:16]
+    hk = hashlib.sha1((src + _harness_hash(prog) + hh(prog.repo) + "dup").encode()).hexdigest()[:16]
     cache = os.path.join(BUILD, "dupspec-%s-%s.json" % (prog.key, hk))
     if os.path.exists(cache):
         return json.load(open(cache))
@@ -1476,7 +1483,7 @@ def over_spec_ok(prog):
     if n is None:
         return False
     src = open(extract_natives(prog)).read()
-    hk = hashlib.sha1((src + _harness_hash() + hh(prog.repo) + "over").encode()).hexdigest()[:16]
+    hk = hashlib.sha1((src + _harness_hash(prog) + hh(prog.repo) + "over").encode()).hexdigest()[:16]
     cache = os.path.join(BUILD, "overspec-%s-%s.json" % (prog.key, hk))
     if os.path.exists(cache):
         return json.load(open(cache))
@@ -1602,17 +1609,20 @@ def gen_preconditions(prog, effects=None, refine=True):
     o.append("\tdefault:\n\t\tbreak;\n\t}\n\t(void)c;\n}\n")
     pth = os.path.join(d, "t0n_%s_pre.h" % prog.key)
     txt = "".join(o)
-    if not os.path.exists(pth) or open(pth).read() != txt:
-        with open(pth + ".tmp%d" % os.getpid(), "w") as f:
-            f.write(txt)
-        os.replace(pth + ".tmp%d" % os.getpid(), pth)
+    with _gen_lock:
+        if not os.path.exists(pth) or open(pth).read() != txt:
+            tmpn = pth + ".tmp%d.%d" % (os.getpid(), threading.get_ident())
+            with open(tmpn, "w") as f:
+                f.write(txt)
+            os.replace(tmpn, pth)
     return desc
 
 
 def ensure_pre(prog):
     pth = os.path.join(gen_dir(prog), "t0n_%s_pre.h" % prog.key)
-    if not os.path.exists(pth):
-        gen_preconditions(prog, refine=False)
+    with _gen_lock:
+        if not os.path.exists(pth):
+            gen_preconditions(prog, refine=False)
     return pth
 
 
